@@ -64,6 +64,16 @@ var commonAssume = []string{
 }
 
 var props = map[string]*propCfg{
+	"C03": {
+		Title:    "final aggregates equal the reference aggregation, independent of parallelism",
+		Quick:    tierCfg{Runs: 1200, Chunk: 40, DetRuns: 24, ShrinkSec: 90},
+		Thorough: tierCfg{Runs: 60000, Chunk: 400, DetRuns: 128, ShrinkSec: 300},
+		Rule: "one evaluation = one scenario (a corpus of 0-60 lines `w1 w2 n` with tricky words, noise and optionally non-numeric increments; one of histo/table/heatmap/spark/bars/reduce/analyze or a {.}-keyed histogram, with drawn key templates, sort flags and an optional ignore expression) executed in-process under 3-5 variants that must not matter: --workers/--batch/--batch-buffer/--readers, permuted file arguments, the same lines divided among 1-4 files (contiguous or scattered), plain/gzip with -z, stdin, schedule, read chunking/latency (number of intermediate renders on the fake clock), map-iteration salt; exit status, CSV bytes and snapshot stdout must agree across variants, and the CSV parsed by a strict RFC 4180 parser must equal an independent fold (stdlib regexp + the world's own template evaluator); " +
+			"distinct_nontrivial = distinct combined schedule hashes among scenarios with >= 1 matching line and >= 2 goroutines runnable at >= 1 decision",
+		Real:  []string{"main.cliMain + urfave/cli", "cmd/histo|tabulate|heatmap|spark|bargraph|reduce|analyze", "cmd/helpers", "pkg/aggregation", "pkg/csv", "pkg/multiterm renderers", "pkg/extractor + batchers", "pkg/expressions", "compress/gzip"},
+		Stubs: []string{"goroutine scheduling (tape)", "clock (synctest fake clock)", "Go map iteration order in rare's packages (tape-salted permutation)", "stdin (scripted reader)", "read chunking/latency (fs seam)", "os.Exit (trapped)", "os.Stdout/os.Stderr (scratch files)"},
+		Assume: []string{"no read errors are injected in this world (a byte-offset fault does not commute with re-dividing lines among files); C06 covers them", "kept out on purpose: --sort numeric|contextual|date (C13's world), spark without --notruncate, order-sensitive reduce accumulators"},
+	},
 	"C06": {
 		Title:    "named inputs are each read once, decoded faithfully, and failures are reported",
 		Quick:    tierCfg{Runs: 3000, Chunk: 100, DetRuns: 48, ShrinkSec: 60},
